@@ -3,6 +3,7 @@
 CONSTANTS
   MaxStarts = 2
   MaxDrops = 0
+  MaxForget = 0
   MaxDups = 0
   TieBreak = FALSE
   RoleByAddress = FALSE
